@@ -364,6 +364,9 @@ def remove_qubit(tableau, qubit_position, measurement_determinism="probabilistic
     tableau, outcome, probabilistic = z_measurement_gate(
         tableau, qubit_position, measurement_determinism
     )
+    if outcome == 1:
+        # bring the measured qubit to |0> so that dropping its Z factors below keeps the signs right
+        tableau = x_gate(tableau, qubit_position)
     new_table = np.delete(
         tableau.table, [qubit_position, qubit_position + n_qubits], axis=1
     )
